@@ -258,9 +258,11 @@ def _seg_normal_2d(a, b):
     return np.array([t[1], -t[0], 0.0])
 
 
-def regions_T1(xs):
-    """1D template along x with vertices xs: bulk = segments."""
+def regions_T1(xs, A=None, b=None):
+    """1D template along x with vertices xs (optionally its affine image x -> A x + b: a straight member anywhere): bulk = segments."""
     P = [np.array([x, 0.0, 0.0]) for x in xs]
+    if A is not None:
+        P = [np.asarray(A, float) @ p + (0.0 if b is None else np.asarray(b, float)) for p in P]
     segs = [Seg(P[i], P[i + 1]) for i in range(len(P) - 1)]
     out = {1: {"all": Region("all", segs, everything=True)}}
     if len(segs) >= 2:
